@@ -184,3 +184,59 @@ func ConfigFor(seed string, levels map[string]int) upgrade.Config {
 	}
 	return upgrade.NewConfigFromStrings(strs)
 }
+
+// SpecMavenCompare is the SPECIFICATION of mavenutil.CompareVersions, stated independently of it: Maven's version order (deps.dev
+// semver.Maven, third party) — in which distinct spellings of one version (1.0, 1.0.0, 1.0.0.Final) are EQUAL — with the two documented
+// exceptions: for com.google.guava:guava the flavour (-android or not) of the version in vk ranks above the other flavour, and for
+// commons-* packages the date-like versions (200…) rank below all others.  nil sorts first.  The rank tables handed to the Lean
+// models are built from this function, never from the code under test; the generators also compare the two on every pair.
+func SpecMavenCompare(vk resolve.VersionKey, a, b *semver.Version) int {
+	switch {
+	case a == nil && b == nil:
+		return -1 // as the code: a == nil is looked at first
+	case a == nil:
+		return -1
+	case b == nil:
+		return 1
+	}
+	if vk.Name == "com.google.guava:guava" {
+		want := strings.HasSuffix(vk.Version, "-android")
+		fa, fb := strings.HasSuffix(a.String(), "-android"), strings.HasSuffix(b.String(), "-android")
+		if fa != fb {
+			if fa == want {
+				return 1
+			}
+			return -1
+		}
+	} else if strings.HasPrefix(vk.Name, "commons-") {
+		da, db := strings.HasPrefix(a.String(), "200"), strings.HasPrefix(b.String(), "200")
+		if da != db {
+			if da {
+				return -1
+			}
+			return 1
+		}
+	}
+	return a.Compare(b)
+}
+
+// CompareAgrees reports whether the real mavenutil.CompareVersions has the sign of SpecMavenCompare on every pair of vs.
+func CompareAgrees(vk resolve.VersionKey, vs []*semver.Version) bool {
+	sgn := func(x int) int {
+		switch {
+		case x < 0:
+			return -1
+		case x > 0:
+			return 1
+		}
+		return 0
+	}
+	for _, a := range vs {
+		for _, b := range vs {
+			if sgn(guidedremediation.VerifMavenCompareVersions(vk, a, b)) != sgn(SpecMavenCompare(vk, a, b)) {
+				return false
+			}
+		}
+	}
+	return true
+}
